@@ -2,3 +2,4 @@ import Wl2kVerif.Util.Hex
 import Wl2kVerif.Ops.Secure
 import Wl2kVerif.Ops.PosRep
 import Wl2kVerif.Ops.Msg
+import Wl2kVerif.Ops.Url
